@@ -97,6 +97,10 @@ func initArrayTuple() {
 		func(vm *Thread, args []value.Value) (value.Value, value.Value) {
 			self := args[0].AsReference().(value.ArrayTuple)
 			switch other := args[1].SafeAsReference().(type) {
+			case value.ArrayList:
+				// lists satisfy the Go ArrayTuple interface too, but `==` is strict:
+				// a list is not an ArrayTuple (`=~` compares across the two classes)
+				return value.False.ToValue(), value.Undefined
 			case value.ArrayTuple:
 				equal, err := ArrayTupleEqual(vm, self, other)
 				if !err.IsUndefined() {
